@@ -89,6 +89,7 @@ type lkWorld struct {
 	events   map[string][]lkEvent
 	byName   map[string][]string // method name -> function keys
 	guardBy  map[string]string   // "<dir>:<Type>.<field>" declared above a mutex of the same struct -> that mutex's name
+	cbRet    map[string]string   // function key -> callback field a (copy of) which it returns
 	problems []string
 	notes    []string
 }
@@ -605,6 +606,13 @@ func (f *lkFn) cbFieldOf(e ast.Expr) (string, bool) {
 		}
 	case *ast.SliceExpr:
 		return f.cbFieldOf(x.X)
+	case *ast.CallExpr:
+		// subs := s.subscribersLocked()   (a helper returning a copy of the field)
+		if cs, _, _ := f.resolve(x); len(cs) == 1 {
+			if k, ok := f.w.cbRet[cs[0]]; ok {
+				return k, true
+			}
+		}
 	}
 	return "", false
 }
@@ -881,6 +889,12 @@ func (f *lkFn) stmt(s ast.Stmt, held map[string]bool) map[string]bool {
 	case *ast.ReturnStmt:
 		for _, r := range x.Results {
 			f.expr(r, held)
+		}
+		// summary: the function hands out (a copy of) a callback slice
+		if len(x.Results) == 1 && !strings.Contains(f.key, "$go") {
+			if k, yes := f.mentionsCbField(x.Results[0]); yes {
+				f.w.cbRet[f.key] = k
+			}
 		}
 	case *ast.IncDecStmt:
 		f.writeTarget(x.X, held)
@@ -1355,7 +1369,7 @@ type lkResult struct {
 
 func lkAnalyse() *lkResult {
 	w := &lkWorld{pkgs: map[string]*lkPkg{}, locks: map[string]string{}, cbFields: map[string]bool{},
-		regs: map[string][]string{}, regIn: map[string]string{}, events: map[string][]lkEvent{}, byName: map[string][]string{}, guardBy: map[string]string{}}
+		regs: map[string][]string{}, regIn: map[string]string{}, events: map[string][]lkEvent{}, byName: map[string][]string{}, guardBy: map[string]string{}, cbRet: map[string]string{}}
 	res := &lkResult{witness: map[[2]string]string{}, cbUnder: map[string][]string{}}
 	for _, d := range lkPkgDirs {
 		p := lkLoad(d)
@@ -1432,6 +1446,29 @@ func lkAnalyse() *lkResult {
 		for _, fn := range fnames {
 			w.walkFunc(p, fn, p.funcs[fn])
 		}
+	}
+	// second pass: callers of helpers that return a callback slice (w.cbRet of the first pass)
+	if len(w.cbRet) > 0 {
+		keepProblems, keepNotes := w.problems, w.notes
+		w.problems, w.notes = nil, nil
+		for _, d := range lkPkgDirs {
+			p := w.pkgs[d]
+			var fnames []string
+			for fn := range p.funcs {
+				fnames = append(fnames, fn)
+			}
+			sort.Strings(fnames)
+			for _, fn := range fnames {
+				for k := range w.events {
+					if k == p.dir+":"+fn || strings.HasPrefix(k, p.dir+":"+fn+"$go") {
+						delete(w.events, k)
+					}
+				}
+				w.walkFunc(p, fn, p.funcs[fn])
+			}
+		}
+		_ = keepProblems
+		_ = keepNotes
 	}
 	// summaries: locks a function may take, callbacks it may invoke (transitively)
 	acq := map[string]map[string]bool{}
